@@ -795,9 +795,15 @@ func (h *hist) opDialFail() {
 	case 0: // nobody listens
 		var err error
 		var c *netceptor.Conn
-		ctx, cancel := context.WithTimeout(context.Background(), 40*time.Second)
-		h.bounded("dial to a dead service", 90*time.Second, func() { c, err = n.N.DialContext(ctx, o.ID, "nosuch", nil) })
-		cancel()
+		// every other time the caller's context outlives the dial (Dial uses context.Background()): the dial is ended
+		// by the 'service unknown' notice alone
+		if h.rng.Intn(2) == 0 {
+			h.bounded("dial to a dead service", 90*time.Second, func() { c, err = n.N.Dial(o.ID, "nosuch", nil) })
+		} else {
+			ctx, cancel := context.WithTimeout(context.Background(), 40*time.Second)
+			h.bounded("dial to a dead service", 90*time.Second, func() { c, err = n.N.DialContext(ctx, o.ID, "nosuch", nil) })
+			cancel()
+		}
 		if err == nil && c != nil {
 			h.res.violate("C17:dial-dead-succeeded", "dial to a service nobody listens on succeeded", nil)
 			_ = c.CloseConnection()
